@@ -6,6 +6,8 @@
 //   given a negative / bogus byte count" is observed on the real code, not inferred.
 // usage: C15_replay corrupt_dim   (writes an empty (0,3) tensor with the real writer, alters one header byte, reads it back)
 // usage: C15_replay big_dim <n>   (writes a rank-1 tensor of n one-byte scalars with the real writer, inspects the header)
+// usage: C15_replay string_reuse  (empty / short string read into a destination that already holds a value)
+// usage: C15_replay payload_bits  (every single-bit corruption of a float64 tensor payload must be rejected)
 // exit 1: the property is violated (accepted with invalid dims, or a negative count reached istream::read); 0 otherwise
 #include <nano/tensor/stream.h>
 #include <cstdio>
@@ -114,8 +116,57 @@ int big_dim(const long long n)
     return (ok && static_cast<long long>(d0) != static_cast<long long>(t.size())) ? 1 : 0;
 }
 
+// read(string) / read(vector<string>) into a RE-USED destination: the stored (possibly empty) value must replace the old one
+int string_reuse()
+{
+    int failures = 0;
+    for (const std::string stored : {std::string{}, std::string{"ab"}})
+    {
+        std::ostringstream os;
+        ::nano::write(os, stored);
+        std::istringstream is(os.str());
+        std::string        dest = "previous";
+        const bool         ok   = static_cast<bool>(::nano::read(is, dest));
+        const bool         bad  = ok && dest != stored;
+        std::printf("{\"stored\": \"%s\", \"destination_before\": \"previous\", \"accepted\": %s, \"read_back\": \"%s\", \"violation\": %s}\n",
+                    stored.c_str(), ok ? "true" : "false", dest.c_str(), bad ? "true" : "false");
+        failures += bad ? 1 : 0;
+    }
+    return failures ? 1 : 0;
+}
+
+// every single-bit corruption of the payload of a float64 tensor must be rejected (hash(content) covers all 8 bytes)
+int payload_bits()
+{
+    tensor_mem_t<double, 1> w(3);
+    w(0) = 0.142726; w(1) = -1.5; w(2) = 3.25e10;
+    std::ostringstream os;
+    ::nano::write(os, w);
+    const std::string blob   = os.str();
+    const size_t      header = 20 + 4;
+    int               accepted = 0, first_byte = -1, first_bit = -1;
+    for (size_t byte = header; byte < blob.size(); ++byte)
+    {
+        for (int bit = 0; bit < 8; ++bit)
+        {
+            std::string c = blob;
+            c[byte]       = static_cast<char>(c[byte] ^ (1 << bit));
+            std::istringstream is(c);
+            tensor_mem_t<double, 1> r;
+            bool ok = false;
+            try { ok = static_cast<bool>(::nano::read(is, r)); } catch (const std::exception&) {}
+            if (ok) { if (accepted == 0) { first_byte = static_cast<int>(byte - header); first_bit = bit; } ++accepted; }
+        }
+    }
+    std::printf("{\"payload_bytes\": %zu, \"single_bit_corruptions_accepted\": %d, \"first_accepted\": {\"payload_byte\": %d, \"bit\": %d}}\n",
+                blob.size() - header, accepted, first_byte, first_bit);
+    return accepted ? 1 : 0;
+}
+
 int main(int argc, char** argv)
 {
+    if (argc == 2 && std::strcmp(argv[1], "string_reuse") == 0) return string_reuse();
+    if (argc == 2 && std::strcmp(argv[1], "payload_bits") == 0) return payload_bits();
     if (argc == 3 && std::strcmp(argv[1], "big_dim") == 0) return big_dim(std::atoll(argv[2]));
     if (argc >= 2 && std::strcmp(argv[1], "corrupt_dim") == 0) return corrupt_dim();
     if (argc < 5 || std::strcmp(argv[1], "tensor") != 0) return 2;
